@@ -117,6 +117,8 @@ type c20Source struct {
 	groups   map[string]groupSnapshot   // by group pk (hex)
 	groupDef map[string]*protocoltypes.Group
 	dagBytes map[string][]byte // CID -> raw node bytes of every exported log entry
+	// what the message listing of each opened group returns on the exporting node (entry id = payload)
+	messages map[string][]string
 }
 
 // buildSource runs a history on a fresh service and exports.
@@ -212,6 +214,10 @@ func buildSource(t testing.TB, seed int64, ops []c20Op) *c20Source {
 		}
 	}
 	svc.lock.RUnlock()
+	src.messages = map[string][]string{}
+	for k, g := range src.groupDef {
+		src.messages[k] = c20ListMessages(ctx, tp.Service, g.PublicKey)
+	}
 	return src
 }
 
@@ -219,6 +225,7 @@ type restored struct {
 	err        error
 	hung       bool
 	serviceErr string
+	listings   []string
 	panicked   interface{}
 	accountPK  []byte
 	accountGPK []byte
@@ -334,6 +341,18 @@ func restoreInto(t testing.TB, src *c20Source, archive []byte, preexisting int, 
 				r.serviceErr = fmt.Sprintf("the service on the restored node cannot activate exported group %s (%s): %v", k[:8], g.GroupType, err)
 				return
 			}
+		}
+		// the restored node opens the messages the exporting device had written: same listing, group by group
+		for k, g := range src.groupDef {
+			pk := g.PublicKey
+			if g.GroupType == protocoltypes.GroupType_GroupTypeAccount {
+				pk = acc.PublicKey
+			}
+			// recorded, not judged: whether the restored node (a new device) can open what the exporting device wrote
+			// depends on announcements C20 does not speak about (on the unchanged tree the account group's messages
+			// of the exporting device are not listed after a restore)
+			got := c20ListMessages(ctx, tp.Service, pk)
+			r.listings = append(r.listings, fmt.Sprintf("%s/same-message-listing=%v", g.GroupType, fmt.Sprint(got) == fmt.Sprint(src.messages[k])))
 		}
 	}()
 	return r
@@ -501,6 +520,9 @@ func c20CheckValid(rep *vrep.Report, t testing.TB, src *c20Source) {
 	if r.serviceErr != "" {
 		viol("restored-group-unusable", r.serviceErr)
 	}
+	for _, l := range r.listings {
+		rep.Eval("restored-node/" + l)
+	}
 	if !bytes.Equal(r.accountPK, src.accountPK) || !bytes.Equal(r.accountGPK, src.accountGroupPK) {
 		viol("identity-differs", "restored account / account group key differ from the exported account")
 	}
@@ -661,3 +683,22 @@ func c20Mutations(rep *vrep.Report, t testing.TB, src *c20Source) {
 }
 
 func src_seed(src *c20Source) int64 { return 1 }
+
+// c20ListMessages: the terminating message listing of a group through the service, as "entry id = payload".
+func c20ListMessages(ctx context.Context, svc Service, groupPK []byte) []string {
+	cctx, cancel := context.WithTimeout(ctx, 30*time.Second)
+	defer cancel()
+	st := &recStream[protocoltypes.GroupMessageEvent]{ctx: cctx}
+	if err := svc.GroupMessageList(&protocoltypes.GroupMessageList_Request{GroupPk: groupPK, UntilNow: true}, st); err != nil {
+		return []string{"listing error: " + err.Error()}
+	}
+	var out []string
+	for _, m := range st.all() {
+		id := "?"
+		if _, c, err := cid.CidFromBytes(m.EventContext.Id); err == nil {
+			id = c.String()
+		}
+		out = append(out, id[len(id)-8:]+"="+string(m.Message))
+	}
+	return out
+}
